@@ -2058,7 +2058,19 @@ class unyt_array(np.ndarray):
         if unit is None:
             out_arr = np.array(out_arr, copy=_COPY_IF_NEEDED)
         elif ufunc in (modf, divmod_):
-            out_arr = tuple(ret_class(o, unit) for o in out_arr)
+            out_arr = tuple(
+                (
+                    unyt_quantity(np.asarray(o), unit)
+                    if np.shape(o) == ()
+                    else (
+                        # ndarray (op) unyt_quantity: see below
+                        unyt_array(o, unit)
+                        if issubclass(ret_class, unyt_quantity)
+                        else ret_class(o, unit)
+                    )
+                )
+                for o in out_arr
+            )
         elif out_arr.shape == ():
             out_arr = unyt_quantity(np.asarray(out_arr), unit)
         elif out_arr.size == 1:
